@@ -64,6 +64,9 @@ HELPERS = {
     "AliasS": {"type": "string", "default": "al"},
     "Level": {"type": "string", "enum": ["lo", "hi"], "default": "hi"},
     "CfgD": {"type": "object", "properties": {"n": {"type": "integer"}}, "default": {"n": 4}},
+    "Retries": {"type": "integer", "format": "uint32", "default": 3},
+    "Ratio": {"type": "number", "default": 1.5},
+    "Flag": {"type": "boolean", "default": True},
 }
 
 # kind -> (schema, valid values, default candidates)
@@ -85,12 +88,21 @@ KINDS = {
     "pair": ({"$ref": "#/definitions/Pair"}, [{"k": 1}, {"k": 2, "w": False}], [{"k": 4}]),
     "onoff": ({"type": "string", "enum": ["on", "off"]}, ["on", "off"], ["off"]),
     # property types WITH a type-level default, by reference …
-    "shortd": ({"$ref": "#/definitions/ShortD"}, ["", "batch", "abcdefghijklmnop"], ["dd"]),
-    "enumnt": ({"$ref": "#/definitions/EnumNT"}, [1, 3], [3]),
-    "aliasd": ({"$ref": "#/definitions/AliasD"}, ["red", "blue"], ["blue"]),
-    "aliass": ({"$ref": "#/definitions/AliasS"}, ["", "zz"], ["q"]),
-    "level": ({"$ref": "#/definitions/Level"}, ["lo", "hi"], ["lo"]),
-    "cfgd": ({"$ref": "#/definitions/CfgD"}, [{}, {"n": 1}], [{"n": 2}]),
+    "shortd": ({"$ref": "#/definitions/ShortD"}, ["", "batch", "abcdefghijklmnop"], ["dd", "batch", ""]),
+    "enumnt": ({"$ref": "#/definitions/EnumNT"}, [1, 3], [3, 2]),
+    "aliasd": ({"$ref": "#/definitions/AliasD"}, ["red", "blue"], ["blue", "green"]),
+    "aliass": ({"$ref": "#/definitions/AliasS"}, ["", "zz"], ["q", "al", ""]),
+    "level": ({"$ref": "#/definitions/Level"}, ["lo", "hi"], ["lo", "hi"]),
+    "cfgd": ({"$ref": "#/definitions/CfgD"}, [{}, {"n": 1}], [{"n": 2}, {"n": 4}, {}]),
+    "retries": ({"$ref": "#/definitions/Retries"}, [0, 3, 7], [0, 3, 5]),
+    "ratio": ({"$ref": "#/definitions/Ratio"}, [0.0, 1.5, -2.25], [0.0, 1.5, 2.5]),
+    "flag": ({"$ref": "#/definitions/Flag"}, [True, False], [False, True]),
+    # Option of a type with a type-level default (member default null = the Option's own zero)
+    "oretries": ({"oneOf": [{"$ref": "#/definitions/Retries"}, {"type": "null"}]}, [None, 3, 0], [0, 3, 5, None]),
+    "oshortd": ({"oneOf": [{"$ref": "#/definitions/ShortD"}, {"type": "null"}]}, [None, "", "batch"],
+                ["", "batch", "dd", None]),
+    "olevel": ({"oneOf": [{"$ref": "#/definitions/Level"}, {"type": "null"}]}, [None, "lo"], ["hi", "lo", None]),
+    "oaliass": ({"oneOf": [{"$ref": "#/definitions/AliasS"}, {"type": "null"}]}, [None, "zz"], ["", "al", None]),
     # … and inline (titled, the schema itself carries `default`: a non-required property of these kinds is
     # always in state Default, a required one is Required with a type that implements Default)
     "ishort": ({"title": None, "type": "string", "maxLength": 5, "default": "abc"}, ["", "abcde"], None),
@@ -104,7 +116,24 @@ KINDS["node"] = ({"$ref": "#/definitions/Node"}, [{"val": 1}, {"val": 2, "next":
 KINDS["rb"] = ({"$ref": "#/definitions/RB"}, [{}, {"next": {}, "kids": [{}]}], [])
 KINDS["rbs"] = ({"type": "array", "items": {"$ref": "#/definitions/RB"}}, [[], [{}, {"next": {}}]], [])
 CORPUS_ONLY = {"node", "rb", "rbs"}
-TD_KINDS = ["shortd", "enumnt", "aliasd", "aliass", "level", "cfgd", "ishort", "ilevel", "ienumnt", "icfg"]
+TD_KINDS = ["shortd", "enumnt", "aliasd", "aliass", "level", "cfgd", "retries", "ratio", "flag",
+            "oretries", "oshortd", "olevel", "oaliass", "ishort", "ilevel", "ienumnt", "icfg"]
+
+
+def force_list():
+    """(kind, state, member default) for every type-with-default kind: Required, no member default, and every
+    member default candidate (equal to the type's own default / the inner type's zero / another valid value)"""
+    out = []
+    for k_ in TD_KINDS:
+        defs = KINDS[k_][2]
+        out.append((k_, "required", None))
+        if defs is None:
+            out.append((k_, "default", None))     # inline: the schema's own default
+            continue
+        out.append((k_, "optional", None))
+        for d_ in defs:
+            out.append((k_, "default", d_))
+    return out
 # string arguments for the `&str` / `String` setter modes: (value, schema-valid?)
 STR_ARGS = {
     "color": [("red", True), ("purple", False), ("", False), ("Red", False)],
@@ -118,7 +147,12 @@ STR_ARGS = {
     "ilevel": [("hi", True), ("", False)],
     "aliasd": [("red", True), ("pink", False)],
     "aliass": [("anything", True), ("", True)],
+    "retries": [("5", True), ("0", True), ("-1", False), ("x", False), ("4294967296", False)],
+    "ratio": [("2.5", True), ("abc", False)],
+    "flag": [("true", True), ("false", True), ("yes", False)],
 }
+# JSON member equivalent to a string setter argument (FromStr of the inner type)
+STR_JSON = {"retries": int, "ratio": float, "flag": lambda x: x == "true"}
 ENUM_INTS = {"enumnt": (1, 2, 3), "ienumnt": (1, 2, 3)}
 INT_RANGE = {"int": (-2 ** 63, 2 ** 63 - 1), "u8": (0, 255), "i32": (-2 ** 31, 2 ** 31 - 1)}
 INT_ARGS = [0, 7, -1, 255, 256, 2 ** 31, -2 ** 31 - 1, 2 ** 40, 1, 2, 3]
@@ -141,7 +175,7 @@ HELPER_META["CfgD"] = {"props": [{"json": "n", "kind": "int", "state": "optional
 
 
 def gen_struct(rnd, n, tprefix="T", force=()):
-    """force: [(kind, state)] for the first properties (state "required" | "optional")"""
+    """force: [(kind, state, default)] for the first properties (state "required" | "optional" | "default")"""
     n = max(n, len(force))
     names = rnd.sample(NAMES, n)
     props = {}
@@ -149,9 +183,9 @@ def gen_struct(rnd, n, tprefix="T", force=()):
     spec = []
     for j, nm in enumerate(sorted(names)):
         kind = rnd.choice(sorted(k_ for k_ in KINDS if k_ not in CORPUS_ONLY))
-        fstate = None
+        fstate, fdefault = None, None
         if j < len(force):
-            kind, fstate = force[j]
+            kind, fstate, fdefault = force[j]
         if kind == "onoff" and not nm.isascii():
             # the inline enum would be named after the property (S0Übung); py/world.py writes type names
             # into the dispatch table with json.dumps, whose \\uXXXX escapes are not Rust
@@ -167,6 +201,9 @@ def gen_struct(rnd, n, tprefix="T", force=()):
             required.append(nm)
         elif inline:
             state = "default"          # the schema's own `default`
+        elif fstate == "default":
+            state = "default"
+            s["default"] = fdefault
         elif fstate == "optional" or r < 0.7 or not defs:
             state = "optional"
         else:
@@ -190,6 +227,8 @@ def gen_cases(ctx):
     out = []
     nmods = 22 if ctx.tier == "quick" else 100
     sizes = list(range(0, 9))
+    FORCE = force_list()
+    assert len(FORCE) <= 2 * 4 * nmods
     k = 0
     for m in range(nmods):
         defs = dict(HELPERS)
@@ -197,11 +236,12 @@ def gen_cases(ctx):
         for j in range(3):
             n = sizes[k % len(sizes)] if m < 9 else rnd.choice(sizes)
             k += 1
+            # every seed: each type-with-default kind Required, without member default, and with every member
+            # default candidate (4 forced members per struct, structs S0/S1 of the first modules)
             force = ()
-            if j == 0 and m < len(TD_KINDS):
-                # every seed: each type-with-default kind once Required and once not, in one struct
-                force = ((TD_KINDS[m], "required"), (TD_KINDS[m], "optional"),
-                         (TD_KINDS[(m + 3) % len(TD_KINDS)], "required"))
+            if j < 2:
+                at = (2 * m + j) * 4
+                force = tuple(FORCE[at:at + 4])
             sch, spec = gen_struct(rnd, n, "S%d" % j, force)
             nm = "S%d" % j
             defs[nm] = sch
@@ -418,6 +458,8 @@ def arg_ok(kind, mode, val):
             return val in ENUM_INTS[kind]
         lo, hi = INT_RANGE[kind]
         return lo <= val <= hi
+    if kind in STR_JSON:
+        return dict(STR_ARGS[kind])[val]
     if kind in ("color", "aliasd"):
         return val in HELPERS["Color"]["enum"]
     if kind in ("level", "ilevel"):
@@ -586,7 +628,7 @@ def expected_direct(sc, seq):
         if ident in last:
             mode, v = last[ident]
             if arg_ok(s["kind"], mode, v):
-                obj[s["json"]] = v
+                obj[s["json"]] = STR_JSON[s["kind"]](v) if mode in ("s", "S") and s["kind"] in STR_JSON else v
             else:
                 offenders.append((ident, "conv"))
         elif s["state"] == "required":
@@ -782,6 +824,32 @@ def run(ctx):
                 b_ = td["required" if p_["state"]["k"] == "required" else "other"]
                 b_[e_["kind"]] = b_.get(e_["kind"], 0) + 1
     ctx.coverage["props_whose_type_has_a_type_level_default"] = td
+    # … and defaulted members whose own default differs from / equals the default of their TYPE
+    md = {"differs_zero": 0, "differs_other": 0, "equal": 0, "option_of": 0}
+    for sc in structs:
+        if sc.spec is None:
+            continue
+        ent = sc.gen["dump"]["entries"]
+        for p_ in sc.props:
+            if p_["state"]["k"] != "default":
+                continue
+            e_ = ent[str(p_["type_id"])]
+            if e_["kind"] == "option":
+                e_ = ent[str(e_["id"])]
+                if e_.get("default") is not None:
+                    md["option_of"] += 1
+            if e_["kind"] in ("newtype", "struct", "enum") and e_.get("default") is not None:
+                v_ = p_["state"]["v"]
+                if v_ == e_["default"]["v"] and type(v_) == type(e_["default"]["v"]):
+                    md["equal"] += 1
+                elif v_ in (0, "", False, {}, []) or v_ == 0.0:
+                    md["differs_zero"] += 1
+                else:
+                    md["differs_other"] += 1
+    ctx.coverage["defaulted_members_vs_type_level_default"] = md
+    ctx.oblige("coverage: defaulted members whose default is the inner zero / another value / equal to their type's "
+               "own type-level default, and Option-typed ones, are present", all(v_ > 0 for v_ in md.values()),
+               json.dumps(md))
     ctx.oblige("coverage: Required properties whose type is a newtype / struct / enum with a type-level default "
                "are present", all(td["required"].get(k_, 0) > 0 for k_ in ("newtype", "struct", "enum")), json.dumps(td))
     reqs = []
@@ -1020,6 +1088,17 @@ def emulate_mutation(ctx, w, structs):
                         sc.res[(q, "build")] = {"ok": obj, "fields": []}
                     elif rest[0][1] == "missing":
                         b["err"] = "no value supplied for %s" % rest[0][0]
+            elif MUT == "intrinsic-default-uses-type-default" and "ok" in b:
+                # builder Default uses Default::default() of the member TYPE when the member default is the inner
+                # type's zero and the type implements Default (its own type-level default)
+                ent = sc.gen["dump"]["entries"]
+                for k, p in enumerate(sc.props):
+                    e_ = ent[str(p["type_id"])]
+                    if p["state"]["k"] == "default" and p["name"] not in last and e_["kind"] == "newtype" \
+                            and e_.get("default") is not None and p["state"]["v"] in (0, "", False) \
+                            and e_["default"]["v"] != p["state"]["v"]:
+                        b["fields"][k][1] = e_["default"]["v"]
+                        b["ok"][sc.wire(k)] = e_["default"]["v"]
             elif MUT == "default-differs" and "ok" in b:
                 # builder default of a defaulted property differs from the serde default
                 for k, p in enumerate(sc.props):
